@@ -12,7 +12,11 @@ def parse(first):
     if not m:
         return None, None
     d = m.group(1).rstrip("/") or "."
-    return d, m.group(2).strip()
+    args = m.group(2).strip()
+    # a RUN line written relative to the package directory ("… .") is rewritten relative to the repository root
+    if d != "." and (args.endswith(" .") or args.endswith(" ./")):
+        args = args[:args.rfind(" ")] + " ./" + d + "/"
+    return d, args
 def one(p):
     out = []
     wt = prefix + p
